@@ -271,8 +271,7 @@ func runPipeBLabelled(label string, bseed uint64) string {
 	waitUntil(func() bool { evMu.Lock(); defer evMu.Unlock(); return evN == 0 })
 	// quiescence: no pool is filling and every open socket is a connection of an open pool
 	orphans := 0
-	dl := time.Now().Add(wd())
-	for {
+	if !patient(wd(), func() bool {
 		sample()
 		pmu.Lock()
 		ps := append([]*gocql.VerifHostPool(nil), pools...)
@@ -312,18 +311,13 @@ func runPipeBLabelled(label string, bseed uint64) string {
 				}
 			}
 		}
-		if !filling && orphans == 0 {
-			break
+		return !filling && orphans == 0
+	}) {
+		if orphans == 0 {
+			orphans = -1 // a filler that never stops
 		}
-		if time.Now().After(dl) {
-			if orphans == 0 {
-				orphans = -1 // a filler that never stops
-			}
-			atomic.AddInt64(&failures, 1)
-			os.WriteFile(dumpPath("stall", label), []byte("no quiescence\n"+stacks()), 0o644)
-			break
-		}
-		time.Sleep(time.Millisecond)
+		atomic.AddInt64(&failures, 1)
+		os.WriteFile(dumpPath("stall", label), []byte("no quiescence\n"+stacks()), 0o644)
 	}
 	stalled := 0
 	if orphans < 0 {
@@ -331,9 +325,7 @@ func runPipeBLabelled(label string, bseed uint64) string {
 	}
 	cdone := make(chan struct{})
 	go func() { s.Close(); close(cdone) }()
-	select {
-	case <-cdone:
-	case <-time.After(wd()):
+	if !closedWithin(cdone, wd()) {
 		atomic.AddInt64(&failures, 1)
 		stalled = 1
 		os.WriteFile(dumpPath("stall", label), []byte("Session.Close hangs\n"+stacks()), 0o644)
@@ -342,17 +334,13 @@ func runPipeBLabelled(label string, bseed uint64) string {
 		g.releaseAllDials()
 	}
 	after := 0
-	dl = time.Now().Add(wd())
-	for {
+	patient(wd(), func() bool {
 		after = 0
 		for _, n := range cl.Nodes {
 			after += openSockets(n)
 		}
-		if after == 0 || time.Now().After(dl) {
-			break
-		}
-		time.Sleep(time.Millisecond)
-	}
+		return after == 0
+	})
 	close(stop)
 	bg.Wait()
 	if after > 0 {
@@ -368,13 +356,4 @@ func runPipeBLabelled(label string, bseed uint64) string {
 		cfg, atomic.LoadInt64(&maxConns), orphans, atomic.LoadInt64(&closedConns), after, leaked, fns, stalled, bseed, hosts, ct/time.Millisecond, nTrig)
 }
 
-func waitUntil(cond func() bool) bool {
-	dl := time.Now().Add(wd())
-	for !cond() {
-		if time.Now().After(dl) {
-			return false
-		}
-		time.Sleep(200 * time.Microsecond)
-	}
-	return true
-}
+func waitUntil(cond func() bool) bool { return patient(wd(), cond) }
